@@ -212,7 +212,7 @@ pub open spec fn err_text(e: int) -> Option<Seq<char>> {
     else { None }
 }
 /// operand-class tokens exist in three data classes (bits 5-6 of the ptg: reference 0x20 / value 0x40 / array 0x60) with the same layout
-pub open spec fn ptg_base(p: int) -> int { if p >= 0x20 { p % 32 + 32 } else { p } }
+pub open spec fn ptg_base(p: int) -> int { if 0x40 <= p < 0x60 { p - 0x20 } else if 0x60 <= p < 0x80 { p - 0x40 } else { p } }
 // the function table [MS-XLSB] 2.5.97.10 Ftab is data of the crate (utils::FTAB / FTAB_ARGC); it cannot be checked against the document here
 pub open spec fn ftab_name(i: int) -> Seq<char> { crate::utils::FTAB@[i]@ }
 pub open spec fn ftab_argc(i: int) -> int { crate::utils::FTAB_ARGC@[i] as int }
@@ -315,6 +315,24 @@ pub open spec fn tok_size(rg: Seq<u8>) -> int {
     else if b == 0x3A || b == 0x3C { 9 }                                            // PtgRef3d, PtgRefErr3d: ixti (2), RgceLoc (6)
     else if b == 0x3B || b == 0x3D { 15 }                                           // PtgArea3d, PtgAreaErr3d: ixti (2), RgceArea (12)
     else { 1 }
+}
+
+/// the fields of the token at the head of rg that the code uses as an index or in unchecked arithmetic are in range: ixti names an entry of
+/// the extern-sheet list (3-D tokens), row + 1 fits 32 bits (PtgRef / PtgArea / 3-D: [MS-XLSB] rows are < 2^20), the function index of
+/// PtgFuncVar is inside the function table, the one-based name index of PtgName is not 0.  parse_formula checks none of these.
+pub open spec fn tok_fields_ok(rg: Seq<u8>, nsheets: int) -> bool {
+    let p = rg[0] as int;
+    let b = ptg_base(p);
+    let d = rg.skip(1);
+    if p >= 0x80 { true }
+    else if b == 0x3A { le16(d) < nsheets && le32(d.skip(2)) < 0xFFFF_FFFF }
+    else if b == 0x3B { le16(d) < nsheets && le32(d.skip(2)) < 0xFFFF_FFFF && le32(d.skip(6)) < 0xFFFF_FFFF }
+    else if b == 0x3C || b == 0x3D { le16(d) < nsheets }
+    else if b == 0x24 { le32(d) < 0xFFFF_FFFF }
+    else if b == 0x25 { le32(d) < 0xFFFF_FFFF && le32(d.skip(4)) < 0xFFFF_FFFF }
+    else if b == 0x22 { le16(d.skip(1)) < crate::utils::FTAB_LEN }
+    else if b == 0x23 { le32(d) >= 1 }
+    else { true }
 }
 /// arguments in order, separated by commas
 pub open spec fn join(a: Seq<Seq<char>>) -> Seq<char> decreases a.len() {
@@ -546,6 +564,139 @@ proof fn lemma_sb_at(f: Seq<char>, st: Seq<usize>, i: int)
 proof fn lemma_sb_empty(f: Seq<char>)
     ensures sorted_bnds(f, Seq::<usize>::empty()),
 { reveal(sorted_bnds); }
+
+// the labelled per-token obligations, by name: within the oracle's scope the text is what [MS-XLSB] says
+pub open spec fn xlsb_attrsum_text(scope: bool, got: Seq<char>, want: Seq<char>) -> bool { scope ==> got =~= want }
+pub open spec fn xlsb_binary_operator_text(scope: bool, got: Seq<char>, want: Seq<char>) -> bool { scope ==> got =~= want }
+pub open spec fn xlsb_paren_text(scope: bool, got: Seq<char>, want: Seq<char>) -> bool { scope ==> got =~= want }
+pub open spec fn xlsb_ptgarea3d_text(scope: bool, got: Seq<char>, want: Seq<char>) -> bool { scope ==> got =~= want }
+pub open spec fn xlsb_ptgarea_text(scope: bool, got: Seq<char>, want: Seq<char>) -> bool { scope ==> got =~= want }
+pub open spec fn xlsb_ptgareaerr3d_text(scope: bool, got: Seq<char>, want: Seq<char>) -> bool { scope ==> got =~= want }
+pub open spec fn xlsb_ptgareaerr_text(scope: bool, got: Seq<char>, want: Seq<char>) -> bool { scope ==> got =~= want }
+pub open spec fn xlsb_ptgbool_text(scope: bool, got: Seq<char>, want: Seq<char>) -> bool { scope ==> got =~= want }
+pub open spec fn xlsb_ptgerr_text(scope: bool, got: Seq<char>, want: Seq<char>) -> bool { scope ==> got =~= want }
+pub open spec fn xlsb_ptgint_text(scope: bool, got: Seq<char>, want: Seq<char>) -> bool { scope ==> got =~= want }
+pub open spec fn xlsb_ptgmissarg_text(scope: bool, got: Seq<char>, want: Seq<char>) -> bool { scope ==> got =~= want }
+pub open spec fn xlsb_ptgname_text(scope: bool, got: Seq<char>, want: Seq<char>) -> bool { scope ==> got =~= want }
+pub open spec fn xlsb_ptgnum_text(scope: bool, got: Seq<char>, want: Seq<char>) -> bool { scope ==> got =~= want }
+pub open spec fn xlsb_ptgref3d_text(scope: bool, got: Seq<char>, want: Seq<char>) -> bool { scope ==> got =~= want }
+pub open spec fn xlsb_ptgref_text(scope: bool, got: Seq<char>, want: Seq<char>) -> bool { scope ==> got =~= want }
+pub open spec fn xlsb_ptgreferr3d_text(scope: bool, got: Seq<char>, want: Seq<char>) -> bool { scope ==> got =~= want }
+pub open spec fn xlsb_ptgreferr_text(scope: bool, got: Seq<char>, want: Seq<char>) -> bool { scope ==> got =~= want }
+pub open spec fn xlsb_ptgstr_text(scope: bool, got: Seq<char>, want: Seq<char>) -> bool { scope ==> got =~= want }
+pub open spec fn xlsb_ptgstr_text_without_quote(scope: bool, got: Seq<char>, want: Seq<char>) -> bool { scope ==> got =~= want }
+pub open spec fn xlsb_unary_minus_text(scope: bool, got: Seq<char>, want: Seq<char>) -> bool { scope ==> got =~= want }
+pub open spec fn xlsb_unary_plus_text(scope: bool, got: Seq<char>, want: Seq<char>) -> bool { scope ==> got =~= want }
+
+/// text without a double quote is its own quoted body
+proof fn lemma_dq_plain(t: Seq<char>)
+    ensures !has_quote(t) ==> dq(t) == t,
+    decreases t.len(),
+{
+    if !has_quote(t) {
+        if t.len() > 0 {
+            assert(t[t.len() - 1] != '"');
+            assert forall|i: int| 0 <= i < t.drop_last().len() implies t.drop_last()[i] != '"' by { assert(t.drop_last()[i] == t[i]); }
+            lemma_dq_plain(t.drop_last());
+            assert(t.drop_last().push(t.last()) =~= t);
+        } else { assert(t =~= Seq::<char>::empty()); }
+    }
+}
+
+//@@ props C14
+// ---- the reference tokens AS THE CODE RENDERS THEM (`got`, established inside parse_formula from the statements of the arm) against the
+// layouts of [MS-XLSB]; each lemma is one labelled obligation (a false one fails here, not inside the 300-line function)
+/// PtgRef (0x24 / 0x44 / 0x64): RgceLoc
+proof fn lemma_xlsb_ptgref_text(d: Seq<u8>, row: int, col: int, got: Seq<char>)
+    requires
+        d.len() >= 6, row == le32(d) + 1, col == d[4] as int + 256 * ((d[5] & 0x3F) as int),
+        got == dollar(d[5] & 0x80 != 0x80) + col_name(col) + dollar(d[5] & 0x40 != 0x40) + dec(row as nat),
+    ensures
+        xlsb_ptgref_text(xb_row_ok(le32(d)), got, xb_cell(d)),
+{
+    lemma_byte_masks();
+}
+/// PtgArea (0x25 / 0x45 / 0x65): RgceArea
+proof fn lemma_xlsb_ptgarea_text(d: Seq<u8>, got: Seq<char>)
+    requires
+        d.len() >= 12,
+        got == seq!['$'] + col_name(le16(d.subrange(8, 10))) + seq!['$'] + dec((le32(d.subrange(0, 4)) + 1) as nat)
+            + seq![':', '$'] + col_name(le16(d.subrange(10, 12))) + seq!['$'] + dec((le32(d.subrange(4, 8)) + 1) as nat),
+    ensures
+        xlsb_ptgarea_text(xb_row_ok(le32(d)) && xb_row_ok(le32(d.skip(4))), got, xb_area(d)),
+{
+}
+/// PtgRef3d (0x3A / 0x5A / 0x7A): ixti, RgceLoc
+proof fn lemma_xlsb_ptgref3d_text(sh: Seq<char>, d: Seq<u8>, got: Seq<char>)
+    requires
+        d.len() >= 8,
+        got == sh + seq!['!', '$'] + col_name(le16(d.subrange(6, 8))) + seq!['$'] + dec((le32(d.subrange(2, 6)) + 1) as nat),
+    ensures
+        xlsb_ptgref3d_text(xb_row_ok(le32(d.skip(2))), got, sh + seq!['!'] + xb_cell(d.skip(2))),
+{
+}
+/// PtgArea3d (0x3B / 0x5B / 0x7B): ixti, RgceArea
+proof fn lemma_xlsb_ptgarea3d_text(sh: Seq<char>, d: Seq<u8>, got: Seq<char>)
+    requires
+        d.len() >= 14,
+        got == sh + seq!['!', '$'] + col_name(le16(d.subrange(10, 12))) + seq!['$'] + dec((le32(d.subrange(2, 6)) + 1) as nat)
+            + seq![':', '$'] + col_name(le16(d.subrange(12, 14))) + seq!['$'] + dec((le32(d.subrange(6, 10)) + 1) as nat),
+    ensures
+        xlsb_ptgarea3d_text(xb_row_ok(le32(d.skip(2))) && xb_row_ok(le32(d.skip(6))), got, sh + seq!['!'] + xb_area(d.skip(2))),
+{
+}
+/// PtgStr (0x17): the characters between double quotes
+proof fn lemma_xlsb_ptgstr_text(chars: Seq<char>, got: Seq<char>, f: Seq<char>)
+    requires got == f + seq!['"'] + chars + seq!['"'],
+    ensures
+        xlsb_ptgstr_text_without_quote(!has_quote(chars), got, f + quoted(chars)),
+        xlsb_ptgstr_text(true, got, f + quoted(chars)),
+{
+    lemma_dq_plain(chars);
+}
+//@@ props C14,C06
+/// (S) for an operand token: the offset of the end of the text is pushed, text is appended
+proof fn lemma_S_push(f: Seq<char>, st: Seq<usize>, t: Seq<char>)
+    requires sorted_bnds(f, st), blen(f) <= usize::MAX,
+    ensures sorted_bnds(f + t, st.push(blen(f) as usize)),
+{
+    lemma_cidx(f, f.len() as int);
+    assert(f.take(f.len() as int) =~= f);
+    assert((f + t).take(f.len() as int) =~= f);
+    assert(st.take(st.len() as int) =~= st);
+    lemma_struct(f, st, st.len() as int, f + t, st.push(blen(f) as usize));
+}
+/// (S) when text is appended and the stack stays
+proof fn lemma_S_grow(f: Seq<char>, st: Seq<usize>, t: Seq<char>)
+    requires sorted_bnds(f, st),
+    ensures sorted_bnds(f + t, st),
+{
+    lemma_cidx(f, f.len() as int);
+    assert(f.take(f.len() as int) =~= f);
+    assert((f + t).take(f.len() as int) =~= f);
+    assert(st.take(st.len() as int) =~= st);
+    lemma_struct(f, st, st.len() as int, f + t, st);
+}
+/// (S) when the text in front of the top operand is kept: the stack may stay or lose its top
+proof fn lemma_S_top(f: Seq<char>, st: Seq<usize>, g: Seq<char>)
+    requires sorted_bnds(f, st), st.len() >= 1, g.len() >= cidx(f, st.last() as int), g.take(cidx(f, st.last() as int)) == f.take(cidx(f, st.last() as int)),
+    ensures sorted_bnds(g, st), sorted_bnds(g, st.drop_last()),
+{
+    let j = st.len() - 1;
+    lemma_sb_at(f, st, j);
+    assert(st.take(j).push(st[j]) =~= st);
+    assert(st.take(j) =~= st.drop_last());
+    lemma_struct(f, st, j, g, st);
+    lemma_struct(f, st, j, g, st.drop_last());
+}
+/// (S) for a function call: the text in front of its first argument is kept, the arguments' offsets are replaced by the first one
+proof fn lemma_S_func(f: Seq<char>, st: Seq<usize>, j: int, g: Seq<char>)
+    requires sorted_bnds(f, st), 0 <= j < st.len(), g.len() >= cidx(f, st[j] as int), g.take(cidx(f, st[j] as int)) == f.take(cidx(f, st[j] as int)),
+    ensures sorted_bnds(g, st.take(j).push(st[j])),
+{
+    lemma_sb_at(f, st, j);
+    lemma_struct(f, st, j, g, st.take(j).push(st[j]));
+}
 /// bit masks of the code, in the arithmetic of the oracle
 proof fn lemma_byte_masks()
     ensures
@@ -584,6 +735,7 @@ verus! {
 //@@ sig
     decreases __p_rgce@.len(),
 //@@ body
+    broadcast use axiom_display_u16, axiom_display_u32;
     let ghost ctx = mk_ctx(sheets@, names@);
 //@@ before /while !rgce\.is_empty\(\)/
     proof { lemma_sb_empty(formula@); }
@@ -595,6 +747,7 @@ verus! {
             sorted_bnds(formula@, stack@),
         decreases rgce@.len(),
 //@@ before /let ptg = rgce\[0\];/
+        broadcast use axiom_display_u16, axiom_display_u32;
         let ghost rg_in = rgce@;
         let ghost f_in = formula@;
         let ghost st_in = stack@;
@@ -604,9 +757,13 @@ verus! {
             assert(f_in.take(f_in.len() as int) =~= f_in);
             if st_in.len() > 0 { lemma_sb_at(f_in, st_in, st_in.len() - 1); }
         }
+        let ghost d_in = rg_in.skip(1);
+        let ghost kl = if st_in.len() > 0 { cidx(f_in, st_in.last() as int) } else { 0 };
 //@@ after /let ptg = rgce\[0\];/
         //# C06.token_not_truncated
         assert(rg_in.len() >= tok_size(rg_in));
+        //# C06.token_fields_in_range
+        assert(tok_fields_ok(rg_in, sheets@.len() as int));
 //@@ before /let mut args = stack\.split_off/
                     proof { lemma_sb_at(f_in, st_in, args_start as int); }
 //@@ before /for s in &mut args/
@@ -657,12 +814,283 @@ verus! {
                             assert(w@[0] == args@[wi] && w@[1] == args@[wi + 1]);
                             wi = wi + 1;
                         }
-//@@ before /\}\s*if stack\.len\(\) == 1/
-        proof {
-            // (S)
-            lemma_struct(f_in, st_in, stack@.len() as int, formula@, stack@);
-            lemma_struct(f_in, st_in, stack@.len() - 1, formula@, stack@);
-        }
+//@@ after /formula\.pop\(\);\s*formula\.push\('\)'\);/
+                    proof {
+                        let j = st_in.len() - argc;
+                        assert(stack@ =~= st_in.take(j).push(st_in[j]));
+                        assert(formula@.take(k0) =~= f_in.take(k0));
+                        lemma_S_func(f_in, st_in, j, formula@);
+                    }
+//@@ after /formula\.push_str\("\(\)"\);/
+                    proof {
+                        let t = formula@.skip(f_in.len() as int);
+                        assert(formula@ =~= f_in + t);
+                        assert(stack@ =~= st_in.push(blen(f_in) as usize));
+                        lemma_S_push(f_in, st_in, t);
+                    }
+//@@ before /formula\.push_str\(op\);/
+                //# C14.xlsb_binary_operator_text
+                assert(xlsb_binary_operator_text(true, op@, binop(ptg as int)));
+//@@ before /\}\s*0x3b \| 0x5b \| 0x7b => \{/
+                proof {
+                    let t = formula@.skip(f_in.len() as int);
+                    assert(formula@ =~= f_in + t);
+                    assert(stack@ =~= st_in.push(blen(f_in) as usize));
+                    lemma_S_push(f_in, st_in, t);
+                    assert(rgce@ =~= rg_in.skip(9));
+                    let sh = sheets@[ixti as int]@;
+                    let got = sh + seq!['!', '$'] + col_name(le16(d_in.subrange(6, 8))) + seq!['$'] + dec((le32(d_in.subrange(2, 6)) + 1) as nat);
+                    assert(formula@ =~= f_in + got);
+                    lemma_xlsb_ptgref3d_text(sh, d_in, got);
+                    assert(ixti as int == le16(d_in) && (ixti < sheets@.len() ==> ctx.sheets[ixti as int] == sh));
+                }
+//@@ before /\}\s*0x3c \| 0x5c \| 0x7c => \{/
+                proof {
+                    let t = formula@.skip(f_in.len() as int);
+                    assert(formula@ =~= f_in + t);
+                    assert(stack@ =~= st_in.push(blen(f_in) as usize));
+                    lemma_S_push(f_in, st_in, t);
+                    assert(rgce@ =~= rg_in.skip(15));
+                    let sh = sheets@[ixti as int]@;
+                    let got = sh + seq!['!', '$'] + col_name(le16(d_in.subrange(10, 12))) + seq!['$'] + dec((le32(d_in.subrange(2, 6)) + 1) as nat)
+                        + seq![':', '$'] + col_name(le16(d_in.subrange(12, 14))) + seq!['$'] + dec((le32(d_in.subrange(6, 10)) + 1) as nat);
+                    assert(formula@ =~= f_in + got);
+                    lemma_xlsb_ptgarea3d_text(sh, d_in, got);
+                    assert(ixti as int == le16(d_in) && (ixti < sheets@.len() ==> ctx.sheets[ixti as int] == sh));
+                }
+//@@ before /\}\s*0x3d \| 0x5d \| 0x7d => \{/
+                proof {
+                    let t = formula@.skip(f_in.len() as int);
+                    assert(formula@ =~= f_in + t);
+                    assert(stack@ =~= st_in.push(blen(f_in) as usize));
+                    lemma_S_push(f_in, st_in, t);
+                    assert(rgce@ =~= rg_in.skip(9));
+                    //# C14.xlsb_ptgreferr3d_text
+                    assert(xlsb_ptgreferr3d_text(le16(d_in) < ctx.sheets.len(), formula@, f_in + (ctx.sheets[le16(d_in)] + seq!['!'] + "#REF!"@)));
+                }
+//@@ before /\}\s*0x01 => \{/
+                proof {
+                    let t = formula@.skip(f_in.len() as int);
+                    assert(formula@ =~= f_in + t);
+                    assert(stack@ =~= st_in.push(blen(f_in) as usize));
+                    lemma_S_push(f_in, st_in, t);
+                    assert(rgce@ =~= rg_in.skip(15));
+                    //# C14.xlsb_ptgareaerr3d_text
+                    assert(xlsb_ptgareaerr3d_text(le16(d_in) < ctx.sheets.len(), formula@, f_in + (ctx.sheets[le16(d_in)] + seq!['!'] + "#REF!"@)));
+                }
+//@@ before /\}\s*0x03\.\.=0x11 => \{/
+                proof {
+                    let t = formula@.skip(f_in.len() as int);
+                    assert(formula@ =~= f_in + t);
+                    assert(stack@ =~= st_in.push(blen(f_in) as usize));
+                    lemma_S_push(f_in, st_in, t);
+                    assert(rgce@ =~= rg_in.skip(5));
+                }
+//@@ before /\}\s*0x12 => \{/
+                proof {
+                    assert(stack@ =~= st_in.drop_last());
+                    assert(formula@.take(kl) =~= f_in.take(kl));
+                    lemma_S_top(f_in, st_in, formula@);
+                    assert(rgce@ =~= rg_in.skip(1));
+                    assert(formula@ =~= f_in.take(kl) + op@ + f_in.skip(kl));
+                }
+//@@ before /\}\s*0x13 => \{/
+                proof {
+                    assert(stack@ =~= st_in);
+                    assert(formula@.take(kl) =~= f_in.take(kl));
+                    lemma_S_top(f_in, st_in, formula@);
+                    assert(rgce@ =~= rg_in.skip(1));
+                    //# C14.xlsb_unary_plus_text
+                    assert(xlsb_unary_plus_text(true, formula@, f_in.take(kl) + seq!['+'] + f_in.skip(kl)));
+                }
+//@@ before /\}\s*0x14 => \{/
+                proof {
+                    assert(stack@ =~= st_in);
+                    assert(formula@.take(kl) =~= f_in.take(kl));
+                    lemma_S_top(f_in, st_in, formula@);
+                    assert(rgce@ =~= rg_in.skip(1));
+                    //# C14.xlsb_unary_minus_text
+                    assert(xlsb_unary_minus_text(true, formula@, f_in.take(kl) + seq!['-'] + f_in.skip(kl)));
+                }
+//@@ before /\}\s*0x15 => \{/
+                proof {
+                    assert(stack@ =~= st_in);
+                    assert(formula@ =~= f_in + seq!['%']);
+                    lemma_S_grow(f_in, st_in, seq!['%']);
+                    assert(rgce@ =~= rg_in.skip(1));
+                }
+//@@ before /\}\s*0x16 => \{/
+                proof {
+                    assert(stack@ =~= st_in);
+                    assert(formula@.take(kl) =~= f_in.take(kl));
+                    lemma_S_top(f_in, st_in, formula@);
+                    assert(rgce@ =~= rg_in.skip(1));
+                    //# C14.xlsb_paren_text
+                    assert(xlsb_paren_text(true, formula@, f_in.take(kl) + seq!['('] + f_in.skip(kl) + seq![')']));
+                }
+//@@ before /\}\s*0x17 => \{/
+                proof {
+                    let t = formula@.skip(f_in.len() as int);
+                    assert(formula@ =~= f_in + t);
+                    assert(stack@ =~= st_in.push(blen(f_in) as usize));
+                    lemma_S_push(f_in, st_in, t);
+                    assert(rgce@ =~= rg_in.skip(1));
+                    //# C14.xlsb_ptgmissarg_text
+                    assert(xlsb_ptgmissarg_text(true, formula@, f_in + (Seq::<char>::empty())));
+                }
+//@@ before /\}\s*0x18 => \{/
+                proof {
+                    let t = formula@.skip(f_in.len() as int);
+                    assert(formula@ =~= f_in + t);
+                    assert(stack@ =~= st_in.push(blen(f_in) as usize));
+                    lemma_S_push(f_in, st_in, t);
+                    assert(rgce@ =~= rg_in.skip(3 + 2 * le16(d_in)));
+                    let by = d_in.subrange(2, 2 + 2 * le16(d_in));
+                    if !has_bom(by) {
+                        assert(formula@ =~= f_in + seq!['"'] + dec16(by) + seq!['"']);
+                        lemma_xlsb_ptgstr_text(dec16(by), formula@, f_in);
+                    }
+                }
+//@@ before /\}\s*0x19 => \{/
+                proof {
+                    let t = formula@.skip(f_in.len() as int);
+                    assert(formula@ =~= f_in + t);
+                    assert(stack@ =~= st_in.push(blen(f_in) as usize));
+                    lemma_S_push(f_in, st_in, t);
+                }
+//@@ before /\}\s*0x1C => \{/
+                proof {
+                    assert(stack@ =~= st_in);
+                    if eptg == 0x10 {
+                        assert(formula@.take(kl) =~= f_in.take(kl));
+                        lemma_S_top(f_in, st_in, formula@);
+                        assert(rgce@ =~= rg_in.skip(4));
+                        //# C14.xlsb_attrsum_text
+                        assert(xlsb_attrsum_text(true, formula@, f_in.take(kl) + "SUM("@ + f_in.skip(kl) + seq![')']));
+                    } else {
+                        assert(formula@ =~= f_in + Seq::<char>::empty());
+                        lemma_S_grow(f_in, st_in, Seq::<char>::empty());
+                    }
+                }
+//@@ before /\}\s*0x1D => \{/
+                proof {
+                    let t = formula@.skip(f_in.len() as int);
+                    assert(formula@ =~= f_in + t);
+                    assert(stack@ =~= st_in.push(blen(f_in) as usize));
+                    lemma_S_push(f_in, st_in, t);
+                    assert(rgce@ =~= rg_in.skip(2));
+                    //# C14.xlsb_ptgerr_text
+                    assert(xlsb_ptgerr_text(err_text(d_in[0] as int) is Some, formula@, f_in + (err_text(d_in[0] as int)->Some_0)));
+                }
+//@@ before /\}\s*0x1E => \{/
+                proof {
+                    let t = formula@.skip(f_in.len() as int);
+                    assert(formula@ =~= f_in + t);
+                    assert(stack@ =~= st_in.push(blen(f_in) as usize));
+                    lemma_S_push(f_in, st_in, t);
+                    assert(rgce@ =~= rg_in.skip(2));
+                    //# C14.xlsb_ptgbool_text
+                    assert(xlsb_ptgbool_text(d_in[0] <= 1, formula@, f_in + ((if d_in[0] == 0 { "FALSE"@ } else { "TRUE"@ }))));
+                }
+//@@ before /\}\s*0x1F => \{/
+                proof {
+                    let t = formula@.skip(f_in.len() as int);
+                    assert(formula@ =~= f_in + t);
+                    assert(stack@ =~= st_in.push(blen(f_in) as usize));
+                    lemma_S_push(f_in, st_in, t);
+                    assert(rgce@ =~= rg_in.skip(3));
+                    //# C14.xlsb_ptgint_text
+                    assert(xlsb_ptgint_text(true, formula@, f_in + (dec(le16(d_in) as nat))));
+                }
+//@@ before /\}\s*0x20 \| 0x40 \| 0x60 => \{/
+                proof {
+                    let t = formula@.skip(f_in.len() as int);
+                    assert(formula@ =~= f_in + t);
+                    assert(stack@ =~= st_in.push(blen(f_in) as usize));
+                    lemma_S_push(f_in, st_in, t);
+                    assert(rgce@ =~= rg_in.skip(9));
+                    //# C14.xlsb_ptgnum_text
+                    assert(xlsb_ptgnum_text(true, formula@, f_in + (display::<f64>(f64_of_bits(le64(d_in))))));
+                }
+//@@ before /\}\s*0x21 \| 0x22 \| 0x41 \| 0x42 \| 0x61 \| 0x62 => \{/
+                proof {
+                    let t = formula@.skip(f_in.len() as int);
+                    assert(formula@ =~= f_in + t);
+                    assert(stack@ =~= st_in.push(blen(f_in) as usize));
+                    lemma_S_push(f_in, st_in, t);
+                    assert(rgce@ =~= rg_in.skip(15));
+                }
+//@@ before /\}\s*0x23 \| 0x43 \| 0x63 => \{/
+                proof { }
+//@@ before /\}\s*0x24 \| 0x44 \| 0x64 => \{/
+                proof {
+                    let t = formula@.skip(f_in.len() as int);
+                    assert(formula@ =~= f_in + t);
+                    assert(stack@ =~= st_in.push(blen(f_in) as usize));
+                    lemma_S_push(f_in, st_in, t);
+                    assert(rgce@ =~= rg_in.skip(5));
+                    //# C14.xlsb_ptgname_text
+                    assert(xlsb_ptgname_text(1 <= le32(d_in) <= ctx.names.len(), formula@, f_in + (ctx.names[le32(d_in) - 1])));
+                }
+//@@ before /\}\s*0x25 \| 0x45 \| 0x65 => \{/
+                proof {
+                    let t = formula@.skip(f_in.len() as int);
+                    assert(formula@ =~= f_in + t);
+                    assert(stack@ =~= st_in.push(blen(f_in) as usize));
+                    lemma_S_push(f_in, st_in, t);
+                    assert(rgce@ =~= rg_in.skip(7));
+                    let got = dollar(d_in[5] & 0x80 != 0x80) + col_name(col as int) + dollar(d_in[5] & 0x40 != 0x40) + dec(row as nat);
+                    assert(formula@ =~= f_in + got);
+                    lemma_xlsb_ptgref_text(d_in, row as int, col as int, got);
+                }
+//@@ before /\}\s*0x2A \| 0x4A \| 0x6A => \{/
+                proof {
+                    let t = formula@.skip(f_in.len() as int);
+                    assert(formula@ =~= f_in + t);
+                    assert(stack@ =~= st_in.push(blen(f_in) as usize));
+                    lemma_S_push(f_in, st_in, t);
+                    assert(rgce@ =~= rg_in.skip(13));
+                    let got = seq!['$'] + col_name(le16(d_in.subrange(8, 10))) + seq!['$'] + dec((le32(d_in.subrange(0, 4)) + 1) as nat)
+                        + seq![':', '$'] + col_name(le16(d_in.subrange(10, 12))) + seq!['$'] + dec((le32(d_in.subrange(4, 8)) + 1) as nat);
+                    assert(formula@ =~= f_in + got);
+                    lemma_xlsb_ptgarea_text(d_in, got);
+                }
+//@@ before /\}\s*0x2B \| 0x4B \| 0x6B => \{/
+                proof {
+                    let t = formula@.skip(f_in.len() as int);
+                    assert(formula@ =~= f_in + t);
+                    assert(stack@ =~= st_in.push(blen(f_in) as usize));
+                    lemma_S_push(f_in, st_in, t);
+                    assert(rgce@ =~= rg_in.skip(7));
+                    //# C14.xlsb_ptgreferr_text
+                    assert(xlsb_ptgreferr_text(true, formula@, f_in + ("#REF!"@)));
+                }
+//@@ before /\}\s*0x29 \| 0x49 \| 0x69 => \{/
+                proof {
+                    let t = formula@.skip(f_in.len() as int);
+                    assert(formula@ =~= f_in + t);
+                    assert(stack@ =~= st_in.push(blen(f_in) as usize));
+                    lemma_S_push(f_in, st_in, t);
+                    assert(rgce@ =~= rg_in.skip(13));
+                    //# C14.xlsb_ptgareaerr_text
+                    assert(xlsb_ptgareaerr_text(true, formula@, f_in + ("#REF!"@)));
+                }
+//@@ before /\}\s*0x39 \| 0x59 \| 0x79 => \{/
+                proof {
+                    let t = formula@.skip(f_in.len() as int);
+                    assert(formula@ =~= f_in + t);
+                    assert(stack@ =~= st_in.push(blen(f_in) as usize));
+                    lemma_S_push(f_in, st_in, t);
+                    assert(rgce@ =~= rg_in.skip(3 + le16(d_in)));
+                }
+//@@ before /\}\s*_ => return Err\(XlsbError::Ptg\(ptg\)\)/
+                proof {
+                    let t = formula@.skip(f_in.len() as int);
+                    assert(formula@ =~= f_in + t);
+                    assert(stack@ =~= st_in.push(blen(f_in) as usize));
+                    lemma_S_push(f_in, st_in, t);
+                    assert(rgce@ =~= rg_in.skip(7));
+                }
 //@@ end
 }
 }
